@@ -8,7 +8,7 @@ from ..driver import analysis_check, standard_items
 
 
 def main(tier, seed):
-    items = standard_items(seed, tier, 24, 300, bench_quick=8)
+    items = standard_items(seed, tier, 24, 300, bench_quick=8, ps_quick=20, ps_thorough=220)
     variants = [("", {})] if tier == "quick" else [("", {}), ("-fp1", {"type_fp_iterations": 1}), ("-fp2", {"type_fp_iterations": 2})]
     if tier == "quick":
         variants.append(("-fp1", {"type_fp_iterations": 1}))
